@@ -209,7 +209,7 @@ pub fn spec() -> PropSpec {
         ],
         checks: vec![
             EnumCheck::new("own-packet-1-all-offsets", true, |ctx| {
-                let fills = if ctx.tier == Tier::Thorough { 25 } else { 1 };
+                let fills = if ctx.tier == Tier::Thorough { 200 } else { 10 };
                 let mut v = Vec::new();
                 for role in [Role::Client, Role::Server] {
                     for offset in 0..728u16 {
@@ -222,7 +222,7 @@ pub fn spec() -> PropSpec {
                 v
             }, eval_own),
             EnumCheck::new("packet-2-all-peer-offsets", true, |ctx| {
-                let fills = if ctx.tier == Tier::Thorough { 25 } else { 1 };
+                let fills = if ctx.tier == Tier::Thorough { 200 } else { 10 };
                 let mut v = Vec::new();
                 for lib_role in [Role::Client, Role::Server] {
                     for scheme in [Scheme::At8, Scheme::At772] {
@@ -247,7 +247,7 @@ pub fn spec() -> PropSpec {
                 v
             }, eval_answer),
             EnumCheck::new("packet-2-digest-less-echo", false, |ctx| {
-                let n = if ctx.tier == Tier::Thorough { 3000 } else { 200 };
+                let n = if ctx.tier == Tier::Thorough { 50_000 } else { 3_000 };
                 let mut v = Vec::new();
                 for lib_role in [Role::Client, Role::Server] {
                     for i in 0..n {
